@@ -626,3 +626,9 @@ PROPS["C10"]["claim"] += (" generated_sessionless_SendCommand_retries / _until_f
                           "transport the SAME datagram as many times as the contract says (one more per lost / undecodable / stray / temporary reply, none after a final answer).")
 PROPS["C14"]["claim"] += (" generated_RetrieveSDRRepository_snapshot (same file): a repository returned by RetrieveSDRRepository AS TRANSLATED, against a device whose records may change "
                           "under the walk, is the Full Sensor Record set of ONE device state (the one the run ended in), never a mixture.")
+PROPS["C15"]["proofs"] = PROPS["C15"]["proofs"] + ["Bmc.Proofs.C15Float"]
+PROPS["C15"]["claim"] += (" FLOATING-POINT CLAUSE UNDER THE STANDARD MODEL (Proofs/C15Float.lean, Lemmas/FloatModel.lean; core Lean, rationals): convertReading_source — the body of ConvertReading as it "
+                          "stands in the source on this run is the three statements modelled (regenerated fact); convert_error / convert_within_6u — for EVERY rounding function with relative error <= u "
+                          "(what IEEE-754 guarantees for correctly rounded operations; binary64: u = 2^-53) the five-rounding computation is within ((1+u)^5 - 1), hence 6u, of (|M x| + |B| 10^K1) 10^K2 "
+                          "from the specification's value, for ALL integers: the tolerance the correspondence check applies to the real float64 on every run is this theorem's bound. Still trusted: that Go's "
+                          "float64 operations and math.Pow10 are correctly rounded, and the library functions behind the linearisations.")
